@@ -134,9 +134,10 @@ def setFuncName (c : Cfg) (t : Table τ) (fn : Name) (typs : List τ) : Except E
     else .error (.duplicate f fn)
   | none =>
     match t.lookup fn with
-    | some ts =>
-      if eqL R ts typs then .ok (fn, t)
-      else if c.autoname then .ok (recordAutoname (getFuncName R c t typs) fn)
+    | some _ =>
+      -- (4422487) the function of this name cannot be called with these types, or `nameOf` would have found
+      -- it: a conflict, even when its own types could be passed where these are expected
+      if c.autoname then .ok (recordAutoname (getFuncName R c t typs) fn)
       else .error (.conflict fn)
     | none => .ok (fn, t.insert fn typs)
 
@@ -297,7 +298,9 @@ inductive GTy where
   | slice (t : GTy)
   | array (n : Nat) (t : GTy)
   | map (k v : GTy)
-  | chan (t : GTy)
+  | chan (t : GTy)                            -- `chan T`
+  | chanR (t : GTy)                           -- `<-chan T`
+  | chanS (t : GTy)                           -- `chan<- T`
   | struct (fs : GTy)                         -- `fnil`/`fcons` spine; field i is named F<i>
   | fnil
   | fcons (t : GTy) (rest : GTy)
@@ -327,9 +330,14 @@ def isInterface (t : GTy) : Bool :=
 
 /-- `sameFunctionServes(a, b)` (0b79109) on this fragment (typed operands only): identical; or `b` is not
 an interface type and `types.AssignableTo(a, b)`, i.e. identical underlying types with at least one side
-unnamed. A type that merely implements an interface is NOT served by the function for the interface. -/
+unnamed, or a bidirectional channel for a directional one. A type that merely implements an interface is NOT served by the function for the interface. -/
 def assignable (a b : GTy) : Bool :=
-  a == b || (!b.isInterface && a.under == b.under && (!a.hasName || !b.hasName))
+  a == b || (!b.isInterface && a.under == b.under && (!a.hasName || !b.hasName)) ||
+  -- a bidirectional channel value is assignable to a directional channel type with an identical element type
+  (match a.under, b.under with
+    | .chan e, .chanR e' => e == e' && (!a.hasName || !b.hasName)
+    | .chan e, .chanS e' => e == e' && (!a.hasName || !b.hasName)
+    | _, _ => false)
 
 /-- the predeclared type `error`: a named type of the universe scope -/
 def error : GTy := .named 1000 (asc "error") (.ifaceM [asc "Error"])
